@@ -360,6 +360,24 @@ func watcherRules(p *core.Prog, r *core.Run, id string) {
 				}
 			}
 		}
+		// ... and a deadline is all it does to the connection: a deadline can be
+		// taken back when the hello was read in time after all, a Close (or a
+		// write) cannot
+		nOther := 0
+		for _, s := range allCalls(p, core.Closures(watcher)) {
+			c := s.Instr.Common()
+			if !c.IsInvoke() || len(s.X.Args) == 0 {
+				continue
+			}
+			if !s.X.Args[0].Any(func(e *core.Expr) bool { return e.Val == ssa.Value(nc.Params[1]) }) {
+				continue
+			}
+			if m := c.Method.Name(); !matches(`Set(Read|Write)?Deadline|LocalAddr|RemoteAddr`, m) {
+				nOther++
+				r.Check(id+".RESET", fmt.Sprintf("watcher:%s#%d", m, nOther), false, p.InstrPos(s.Instr), "the watcher calls %s on the connection: that cannot be undone when NewConn succeeds after all", m)
+			}
+		}
+		r.Check(id+".RESET", "watcher:deadline-only", nOther == 0, p.Pos(watcher.Pos()), "the watcher does nothing to the connection but set deadlines (%d other calls)", nOther)
 		r.Check(id+".PROMPT", "NewConn:watcher-deadline", kinds["read"] && kinds["write"], p.Pos(watcher.Pos()),
 			"on <-ctx.Done() the watcher sets a deadline of time.Now() covering reads (%v) and writes (%v); both are needed: the blocked read must return and the alert written afterwards must not block", kinds["read"], kinds["write"])
 		// after the join nothing interrupts a blocked read any more: the deferred
